@@ -13,7 +13,7 @@ NATIVE_PY = "/venv/bin/python"
 PLANS = {
     "C10": {
         "level": "proof",
-        "sidecars": ["cifread", "cifloop"],
+        "sidecars": ["cifread", "cifloop", "driver"],
         "extras": [{"name": "c10_equivalence", "module": "bounded.c10_equivalence", "func": "run", "python": "venv"}],
         "explanation": "the record assembled for an atom_site row parses back to the row's items under both missing-value "
                        "conventions (layout logic); model list keeps file order; the row loops of atom_site proved by induction "
@@ -72,7 +72,7 @@ PLANS = {
     },
     "C07": {
         "level": "proof",
-        "sidecars": ["pdbread", "grouping", "readloop"],
+        "sidecars": ["pdbread", "grouping", "readloop", "driver"],
         "extras": [{"name": "c07_records", "module": "bounded.c07_records", "func": "run", "python": "venv", "timeout": 3000}],
         "explanation": "ATOM/HETATM column parser proved (layout logic), drop_water proved; residue grouping of "
                        "Biomolecule.__init__ proved by induction over the record list (loop invariant with ghost books: none "
